@@ -24,7 +24,13 @@ WORDS = ["Map", "Item", "Npc", "Spell", "Chest", "Door", "Quest", "Shop", "Guild
 ACRONYMS = ["NPC", "EO", "ID", "HP", "TP", "AB", "PK", "X", "Y2", "A", "B3D", "HTTPReply", "EIF", "ESF"]
 FIELD_WORDS = ["alpha", "bravo", "count", "delta", "echo", "flag", "gold", "hp", "item_id", "job", "kind", "level",
                "mode", "name", "owner", "price", "quantity", "rank", "slot", "title", "unit", "vitality", "weight",
-               "x", "y", "zone", "amount", "body", "code", "dir", "extra", "first", "guild_tag", "hair_style"]
+               "x", "y", "zone", "amount", "body", "code", "dir", "extra", "first", "guild_tag", "hair_style",
+               # legal names that a generated class might one day want for something of its own
+               "hash", "repr", "cache", "size", "fields", "value", "values", "key", "id", "type", "wire",
+               "length", "reader_position", "self_", "cls_", "old_mode"]
+# NOT generated: field names equal to a builtin that the generated methods call (len, range, int, bytes, tuple, str):
+# they become parameters / locals that shadow it (observed: a field named `len` makes deserialize raise TypeError) -
+# identifiers colliding with generated code, degenerate like the locals `reader`, `writer`, `data`, `result`, `i`
 ENUM_VALUE_WORDS = ["None", "Ok", "Fail", "Male", "Female", "Up", "Down", "Left", "Right", "Normal", "Hidden",
                     "Admin", "Guest", "Open", "Closed", "Red", "Green", "Blue", "Big", "Small", "A", "B2", "NPC",
                     "OnlyOne", "Busy", "Full", "Empty", "Used"]
